@@ -1,4 +1,4 @@
-import Lt.Slice
+import RedisGoModel.Exec.Slice
 /-! The vertical slice extended to a two-key command: RENAME as one block on both keys after both TTL checks, with the
     source's deadline moving to the destination (the pinned code loses it), against a specification over the two
     live cells; the same three obligations, and the program theorem re-assembled with it. -/
